@@ -57,6 +57,18 @@ Proof.
       destruct (existsb (String.eqb x) r) eqn:E; auto. apply existsb_eqb_in in E. contradiction.
 Qed.
 
+Definition no_shared_name (t : stree) : Prop := forall n, In n (internal_names t) -> ~ In n (leaf_names t).
+
+Lemma shared_names_spec t : shared_names t = false <-> no_shared_name t.
+Proof.
+  unfold shared_names, no_shared_name. split.
+  - intros H n Hi Hl. assert (E : existsb (fun n => existsb (String.eqb n) (leaf_names t)) (internal_names t) = true).
+    { apply existsb_exists. exists n. split; [exact Hi|]. apply existsb_eqb_in. exact Hl. }
+    congruence.
+  - intros H. destruct (existsb _ (internal_names t)) eqn:E; [|reflexivity]. exfalso.
+    apply existsb_exists in E as (n & Hi & Hl). apply existsb_eqb_in in Hl. exact (H n Hi Hl).
+Qed.
+
 Lemma build_taxonomy_ok ui t t' :
   build_taxonomy ui t = Ok t' ->
   t' = (if ui then t else synth t) /\ NoDup (leaf_names t') /\ NoDup (internal_names t').
@@ -64,7 +76,17 @@ Proof.
   unfold build_taxonomy. set (u := if ui then t else synth t).
   destruct (nodupb (leaf_names u)) eqn:El; simpl; [|discriminate].
   destruct (nodupb (internal_names u)) eqn:Ei; simpl; [|discriminate].
+  destruct (shared_names u) eqn:Es; [discriminate|].
   intros H. inversion H; subst. repeat split; now apply nodupb_NoDup.
+Qed.
+
+Lemma build_taxonomy_no_shared ui t t' : build_taxonomy ui t = Ok t' -> no_shared_name t'.
+Proof.
+  unfold build_taxonomy. set (u := if ui then t else synth t).
+  destruct (nodupb (leaf_names u)) eqn:El; simpl; [|discriminate].
+  destruct (nodupb (internal_names u)) eqn:Ei; simpl; [|discriminate].
+  destruct (shared_names u) eqn:Es; [discriminate|].
+  intros H. inversion H; subst. apply shared_names_spec. exact Es.
 Qed.
 
 Lemma build_taxonomy_dup_leaves ui t :
@@ -78,10 +100,18 @@ Qed.
 
 Lemma build_taxonomy_accepts (ui : bool) t :
   let u := if ui then t else synth t in
-  NoDup (leaf_names u) -> NoDup (internal_names u) -> build_taxonomy ui t = Ok u.
+  NoDup (leaf_names u) -> NoDup (internal_names u) -> no_shared_name u -> build_taxonomy ui t = Ok u.
 Proof.
-  intros u Hl Hi. unfold build_taxonomy. fold u.
-  apply nodupb_NoDup in Hl, Hi. now rewrite Hl, Hi.
+  intros u Hl Hi Hs. unfold build_taxonomy. fold u.
+  apply nodupb_NoDup in Hl, Hi. apply shared_names_spec in Hs. now rewrite Hl, Hi, Hs.
+Qed.
+
+Lemma build_taxonomy_shared (ui : bool) t :
+  ~ no_shared_name (if ui then t else synth t) -> build_taxonomy ui t = Err KeyError.
+Proof.
+  intros H. unfold build_taxonomy. set (u := if ui then t else synth t) in *.
+  destruct (nodupb (leaf_names u)); simpl; [|reflexivity]. destruct (nodupb (internal_names u)); simpl; [|reflexivity].
+  destruct (shared_names u) eqn:Es; [reflexivity|]. apply shared_names_spec in Es. contradiction.
 Qed.
 
 (* ---------- Newick round trip ---------- *)
